@@ -26,6 +26,7 @@ import (
 	"perun.network/go-perun/client"
 	"perun.network/go-perun/wallet"
 	"perun.network/go-perun/wire"
+	"perun.network/go-perun/wire/perunio"
 )
 
 // ToLedgerChannelProposalMsg converts a protobuf Envelope_LedgerChannelProposalMsg to a client
@@ -206,6 +207,9 @@ func ToBaseChannelProposal(protoProp *BaseChannelProposal) (prop client.BaseChan
 	if err != nil {
 		return prop, errors.WithMessage(err, "init bals")
 	}
+	if err = validBalances(protoProp.GetFundingAgreement()); err != nil {
+		return prop, errors.WithMessage(err, "funding agreement")
+	}
 	prop.FundingAgreement = ToBalances(protoProp.GetFundingAgreement())
 	prop.App, prop.InitData, err = ToAppAndData(protoProp.GetApp(), protoProp.GetInitData())
 	copy(prop.Aux[:], protoProp.GetAux())
@@ -284,6 +288,9 @@ func ToAllocation(protoAlloc *Allocation) (alloc *channel.Allocation, err error)
 	if err != nil {
 		return nil, errors.WithMessage(err, "backends")
 	}
+	if len(protoAlloc.GetAssets()) != len(alloc.Backends) {
+		return nil, errors.New("number of backends and assets differ")
+	}
 	alloc.Assets = make([]channel.Asset, len(protoAlloc.GetAssets()))
 	for i := range protoAlloc.GetAssets() {
 		alloc.Assets[i] = channel.NewAsset(alloc.Backends[i])
@@ -302,8 +309,41 @@ func ToAllocation(protoAlloc *Allocation) (alloc *channel.Allocation, err error)
 			return nil, errors.WithMessagef(err, "%d'th sub alloc", i)
 		}
 	}
+	if err = validBalances(protoAlloc.GetBalances()); err != nil {
+		return nil, errors.WithMessage(err, "balances")
+	}
 	alloc.Balances = ToBalances(protoAlloc.GetBalances())
+	// Enforce the same constraints as the perunio decoder.
+	if err = alloc.Valid(); err != nil {
+		return nil, err
+	}
 	return alloc, nil
+}
+
+// validBalances checks that received balances respect the limits that the
+// perunio decoder enforces.
+func validBalances(protoBalances *Balances) error {
+	if len(protoBalances.GetBalances()) > channel.MaxNumAssets {
+		return errors.New("too many assets")
+	}
+	for _, b := range protoBalances.GetBalances() {
+		if err := validBalance(b); err != nil {
+			return err
+		}
+	}
+	return nil
+}
+
+func validBalance(protoBalance *Balance) error {
+	if len(protoBalance.GetBalance()) > channel.MaxNumParts {
+		return errors.New("too many balances")
+	}
+	for _, b := range protoBalance.GetBalance() {
+		if len(b) > perunio.MaxBigIntLength {
+			return errors.New("balance too long")
+		}
+	}
+	return nil
 }
 
 // ToBalances converts a protobuf Balances to a channel.Balances.
@@ -328,6 +368,9 @@ func ToBalance(protoBalance *Balance) (balance []channel.Bal) {
 func ToSubAlloc(protoSubAlloc *SubAlloc) (subAlloc channel.SubAlloc, err error) {
 	subAlloc = channel.SubAlloc{}
 
+	if err = validBalance(protoSubAlloc.GetBals()); err != nil {
+		return subAlloc, err
+	}
 	subAlloc.Bals = ToBalance(protoSubAlloc.GetBals())
 	if len(protoSubAlloc.GetId()) != len(subAlloc.ID) {
 		return subAlloc, errors.New("sub alloc id has incorrect length")
